@@ -1,7 +1,7 @@
 (** * C01 -- every built-in gate acts as its documented unitary on exactly the masked qubits.
     Statements only; each is closed by a lemma of [Proofs/]. *)
 From Coq Require Import Reals.
-From QV Require Import Spec Reg ScalarR RegP C14T C05T C03T Form2P LinearP C01M C01T C01T2.
+From QV Require Import Spec Reg ScalarR RegP C14T C05T C03T Form2P LinearP C01M C01T C01T2 C09T2 C01T3.
 Open Scope R_scope.
 
 Theorem C01_single_bit : C01_single_bit_stmt.
@@ -39,3 +39,7 @@ Print Assumptions C01_register_path.
 Theorem C01_matrix : C01_matrix_stmt.
 Proof. exact C01_matrix_proof. Qed.
 Print Assumptions C01_matrix.
+
+Theorem C01_u_products : C01_u_products_stmt.
+Proof. exact C01_u_products_proof. Qed.
+Print Assumptions C01_u_products.
